@@ -130,15 +130,26 @@ theorem cutoff_after_update_empty (core : Core) (mode : FhMode) (s : FState) (hf
     update core mode s [] false = (s, .done) := by
   simp [update, hfit]
 
-/-- with refitting, and data arriving in time order, the cutoff is again the batch's last time
-point (the refit re-reads it from the end of the merged series) -/
-theorem cutoff_after_refit_update (core : Core) (mode : FhMode) (s : FState) (y : Series) (o : Obs)
+/-- FULL STATEMENT of the clause ("after EVERY update the cutoff is the last time point of the data
+passed to update") for an update that refits:  `(update core mode s y true).1.cutoff = some o.1`
+whenever the update succeeds.  It does NOT hold: the refit re-reads the cutoff from the end of the
+merged series, so a batch of older / revised data leaves the cutoff at the end of what was known
+(witness below, replayed on the real code: known finding `*:cutoff-after-update:refit-with-older-batch`).
+What is proved is the statement for data arriving in time order (`horder`). -/
+theorem cutoff_after_refit_update_partial (core : Core) (mode : FhMode) (s : FState) (y : Series) (o : Obs)
     (hfit : s.fitted = true) (hlast : y.getLast? = some o)
     (hsorted : y.Pairwise (fun a b => a.1 < b.1)) (hold : s.y.Pairwise (fun a b => a.1 < b.1))
     (horder : ∀ p ∈ s.y, p.1 ≤ o.1)
     (h : (update core mode s y true).2 = .done) :
     (update core mode s y true).1.cutoff = some o.1 :=
   Lem.update_refit_cutoff core mode s y o hfit hlast hsorted hold horder h
+
+/-- the excluded point: fit on label 0, update(update_params=True) with the older label -1:
+the update succeeds and the cutoff is 0, not -1 -/
+theorem cutoff_after_refit_update_older_batch_witness :
+    (update coreLast .optional ⟨true, [(0, some 1)], some 0, some ⟨[4], false⟩, 1⟩ [(-1, some 2)] true).2 = .done ∧
+    (update coreLast .optional ⟨true, [(0, some 1)], some 0, some ⟨[4], false⟩, 1⟩ [(-1, some 2)] true).1.cutoff = some 0 := by
+  refine ⟨by rfl, by rfl⟩
 
 /-- update_predict_single: forecasts are labelled from the batch's last time point -/
 theorem update_predict_single_index (core : Core) (s : FState) (y : Series) (o : Obs) (steps : List Int)
